@@ -457,3 +457,18 @@ def check_same_probability(graph, event, event2, seed, n_models=8, max_card=3):
             return {"want": str(p1), "got": str(p2), "cards": {str(k): v for k, v in m.card.items()},
                     "nu": {str(k): list(v) for k, v in nu.items()}}
     return None
+
+
+def model_sexp(m: Fscm):
+    """the model in the line-protocol encoding of the `cf fscm_prob` driver op (Y0/Spec/Fscm.lean evaluates it)"""
+    exo_pos = {k: i for i, k in enumerate(m.exo)}
+    pmfs = [[[p.numerator, p.denominator] for p in m.pexo[k]] for k in m.exo]
+    mechs = []
+    for v in m.nodes:
+        rows = [[list(key), val] for key, val in m.f[v].items()]
+        mechs.append([v, list(m.pa[v]), [exo_pos[k] for k in m.lat_of[v]], rows])
+    return ["model", list(m.order), pmfs, mechs]
+
+
+def nu_sexp(nu):
+    return [[v, x, xp] for v, (x, xp) in sorted(nu.items())]
